@@ -14,7 +14,10 @@ def spec(th, seed):
     units = [U('C14_ulp.plain', ULP, 'plain'),
              U('C14_relational.plain', REL, 'plain'),
              U('C14_ulp.cxx98', ULP, 'plain', defs=CXX98, scale=0.2, args=['--x-stride', '5' if th else '29']),
-             U('C14_relational.simd-avx2', REL, 'plain', defs=SIMD, scale=0.3)]
+             U('C14_relational.simd-avx2', REL, 'plain', defs=SIMD, scale=0.3),
+             # n-step overloads against n applications of glm's own single step (also right at +-max and around zero)
+             U('C14_nstep.plain', 'mon/C14_nstep.cpp', 'plain'),
+             U('C14_nstep.cxx98', 'mon/C14_nstep.cpp', 'plain', defs=CXX98, scale=0.3)]
     if th:
         units.append(U('C14_ulp.clang', ULP, 'clang', scale=0.2, args=['--x-stride', '7']))
         units.append(U('C14_relational.clang', REL, 'clang', scale=0.3))
